@@ -858,7 +858,8 @@ func (tf *transformer) transformCompile(args []string) ([]string, error) {
 			newPaths = append(newPaths, path)
 		}
 		if flagDebugDir != "" {
-			debugArtifacts.GarbledFiles[basename] = src
+			// printFile returns a shared buffer which the next file overwrites.
+			debugArtifacts.GarbledFiles[basename] = bytes.Clone(src)
 		}
 	}
 	if tf.curPkg.ImportPath == "runtime" && flagTiny {
